@@ -265,3 +265,58 @@ M("C12", CS, """    map_product = map_sum
     map_power = map_sum
     map_quotient = map_sum""", """    map_product = map_sum
     map_quotient = map_sum""", "powers no longer eliminated")
+
+GA = "pymbolic/geometric_algebra/__init__.py"
+M("C18", GA, """    a_bits = a_bits >> 1
+    s = 0""", """    s = 0""", "reordering sign counts a_bits without the initial shift")
+M("C18", GA, """        if shared_bits == a_bits:
+            return _shared_metric_coeff(shared_bits, space)
+        else:
+            return 0
+
+
+class _RightContractionProduct""", """        if shared_bits == b_bits:
+            return _shared_metric_coeff(shared_bits, space)
+        else:
+            return 0
+
+
+class _RightContractionProduct""", "left contraction uses the right-contraction condition")
+M("C18", GA, """            if grade*(grade-1)//2 % 2 == 0:
+                new_data[bits] = coeff
+            else:
+                new_data[bits] = -coeff
+
+        return MultiVector(new_data, self.space)
+
+    def invol""", """            if grade*(grade+1)//2 % 2 == 0:
+                new_data[bits] = coeff
+            else:
+                new_data[bits] = -coeff
+
+        return MultiVector(new_data, self.space)
+
+    def invol""", "reverse uses g(g+1)/2")
+M("C18", GA, """        grade = bit_count(bits)
+        if grade*(grade-1)//2 % 2:
+            coeff = -coeff
+
+        coeff = coeff/nsqr""", """        grade = bit_count(bits)
+        coeff = coeff/nsqr""", "inverse of a blade forgets the reversion sign")
+M("C18", GA, """    def __bool__(self):
+        return bool(self.data)""", """    def __bool__(self):
+        return True""", "multivector always truthy")
+M("C18", GA, """        if shared_bits == a_bits or shared_bits == b_bits:
+            return _shared_metric_coeff(shared_bits, space)""", """        if shared_bits == a_bits and shared_bits == b_bits:
+            return _shared_metric_coeff(shared_bits, space)""", "inner product only for equal blades")
+M("C18", GA, """                    new_coeff = new_data.setdefault(new_bits, 0) + coeff
+                    if is_zero(new_coeff):
+                        del new_data[new_bits]
+                    else:
+                        new_data[new_bits] = new_coeff
+
+        return MultiVector(new_data, self.space)""", """                    new_data[new_bits] = coeff
+
+        return MultiVector(new_data, self.space)""", "product overwrites instead of accumulating (bilinearity)")
+M("C18", GA, """            data = {bits: coeff for bits, coeff in data.items()
+                    if not is_zero(coeff)}""", """            pass""", "revert of fix 0178b1f (explicit zeros kept)")
